@@ -14,4 +14,12 @@ CLAIMED = {
         design='5 C16'),
 }
 
+CLAIMED['C11'] = dict(
+    engine='E2+E1',
+    text='SMT validity plus bounded model checking. E2: TokenCategoryHierarchyMapper.valid and _match are translated from their current source to 37-bit bit-vector terms (nodes() evaluated on the live hierarchy) and the closure algebra of the documented README tree is proved for ALL 2^37 x 2^37 include/exclude pairs (41 unsat queries, None defaults as extra cases). '
+         'E1: the forest/parent map, is_child on all 37x37 pairs, children/nodes/leaves on all members, every argument shape (list/tuple/set/single/None) and rejection of foreign members are decided by exhaustive symbolic execution over selector indices.',
+    note=NOTE + 'The documented tree is the one printed in /repo/README.md (parsed at run time). E2 treats _validate_include/_validate_exclude as the identity on sets; their argument handling is decided separately by C11.d/C11.f.',
+    technique='AST->z3 bit-vector translation of valid/_match (unsat for all sets) + CrossHair-engine symbolic execution over category indices',
+    design='5 C11')
+
 PENDING_REASON = 'check under construction in this session (to be claimed; see DESIGN.md section 5)'
